@@ -24,6 +24,18 @@ def walk(n, skip_lambda_class=True):
         st.extend(reversed(ks))
 
 
+def walk_nolambda(n):
+    """Pre-order traversal that does not enter lambda bodies nor type nodes (decltype operands are unevaluated)."""
+    st = [n]
+    while st:
+        x = st.pop()
+        yield x
+        k = x.get("kind", "")
+        if k == "LambdaExpr" or k.endswith("Type"):
+            continue
+        st.extend(reversed(kids(x)))
+
+
 def strip(n):
     while n.get("kind") in TRANSPARENT and kids(n):
         n = kids(n)[0]
